@@ -11,4 +11,5 @@ class Check(PropertyCheck):
     assumptions = ["E-funds, E-actors, E-names, E-zero-coin (DESIGN.md section 4.5)"]
 
     def families(self, rng, tier):
-        return [("world.general", fam_world.general_histories(rng, tier)), ("world.extreme", fam_world.extreme_histories(rng, tier)), ("world.router", fam_world.router_histories(rng, tier))]
+        return [("world.general", fam_world.general_histories(rng, tier)), ("world.extreme", fam_world.extreme_histories(rng, tier)), ("world.router", fam_world.router_histories(rng, tier)),
+                ("world.lookalike", fam_world.lookalike_histories(rng, tier))]
